@@ -1059,7 +1059,21 @@ impl Gen {
     // `truncate` moves the memory: only this arena value learns the new address. Owned handles
     // (they hold clones), typed handles (they cache a pointer) and the other arena values must
     // be gone before; borrowed byte buffers re-read the pointer through the arena and stay.
-    self.release_all(false, |h| h.kind == HKind::BytesRef);
+    // a DETACHED owned handle may stay alive across the truncate too: it holds an arena value (refs() > 1) but never
+    // touches the memory again
+    let kept: Vec<u32> = if self.rng.chance(25) {
+      let h = self.fresh_h();
+      if self.emit(format!("alloc_bytes_owned {h} 8")).starts_with("r=ok") {
+        self.emit(format!("detach {h}"));
+        vec![h]
+      } else {
+        vec![]
+      }
+    } else {
+      vec![]
+    };
+    let kept2 = kept.clone();
+    self.release_all(false, move |h| h.kind == HKind::BytesRef || kept2.contains(&h.id));
     let ai = self.ai();
     for c in ai.arenas.iter().skip(1) {
       self.emit(format!("drop_arena {c}"));
@@ -1108,6 +1122,10 @@ impl Gen {
       let a = (self.cfg.as_ref().map(|c| c.maxalign as u64).unwrap_or(8)).clamp(8, 64);
       let h = self.fresh_h();
       self.emit(format!("alloc_t {h} {a} {a}"));
+    }
+    // the handle kept across the truncate goes now (it was detached: nothing is released; its arena value is dropped)
+    for h in kept {
+      self.emit(format!("drop {h}"));
     }
   }
 
